@@ -80,6 +80,13 @@ impl ParserInstance {
     }
 }
 
+/// How deep blocks, parentheses and argument lists may be nested (nobody writes this by hand; what is generated or
+/// broken may, and the parser, the code generator and the formatter recurse into every level)
+pub const MAX_NESTING_DEPTH: usize = 64;
+
+/// How many factors a single expression may have
+pub const MAX_EXPRESSION_FACTORS: usize = 512;
+
 /// The shared state of all parsers
 pub struct State {
     /// The parsing source
@@ -96,6 +103,16 @@ pub struct State {
 
     /// Current anonymous scope index
     anonymous_scope_index: usize,
+
+    /// How many blocks, parentheses and argument lists is the parser inside of?
+    nesting_depth: usize,
+
+    /// How many expressions is the parser inside of, and how many factors has the outermost one had so far?
+    expression_depth: usize,
+    expression_factors: usize,
+
+    /// The complaint about one of the above is only made once per file
+    limit_reported: bool,
 }
 
 impl State {
@@ -109,6 +126,48 @@ impl State {
             errors: Diagnostics::default(),
             ignore_next_error: false,
             anonymous_scope_index: 0,
+            nesting_depth: 0,
+            expression_depth: 0,
+            expression_factors: 0,
+            limit_reported: false,
+        }
+    }
+
+    /// Enters a block, a pair of parentheses or an argument list. When that goes deeper than the parser (and everything
+    /// that walks over its result) is prepared to go, `false` is returned. It needs to be left again in both cases.
+    pub fn enter_nesting(&mut self) -> bool {
+        self.nesting_depth += 1;
+        self.nesting_depth <= MAX_NESTING_DEPTH
+    }
+
+    pub fn leave_nesting(&mut self) {
+        self.nesting_depth -= 1;
+    }
+
+    /// Enters a (sub)expression
+    pub fn enter_expression(&mut self) {
+        if self.expression_depth == 0 {
+            self.expression_factors = 0;
+        }
+        self.expression_depth += 1;
+    }
+
+    pub fn leave_expression(&mut self) {
+        self.expression_depth -= 1;
+    }
+
+    /// Counts a factor of the expression the parser is in. Returns `false` when the expression has more factors than
+    /// what deals with expressions (one level of recursion per operator, in the worst case) is prepared to deal with.
+    pub fn count_expression_factor(&mut self) -> bool {
+        self.expression_factors += 1;
+        self.expression_depth == 0 || self.expression_factors <= MAX_EXPRESSION_FACTORS
+    }
+
+    /// Reports that one of the limits above was exceeded (once per file: everything nested inside runs into it as well)
+    pub fn report_limit(&mut self, error: Diagnostic<Span>) {
+        if !self.limit_reported {
+            self.limit_reported = true;
+            self.errors.push(error);
         }
     }
 
@@ -124,6 +183,7 @@ impl State {
     /// What was said about ignoring the next error was said about the file that has just been parsed
     pub fn forget_ignored_error(&mut self) {
         self.ignore_next_error = false;
+        self.limit_reported = false;
     }
 
     /// Mark the next reported error to be ignored (since it may be redundant or something)
